@@ -1609,11 +1609,12 @@ HttpHeaderEntry::parse(const char *field_start, const char *field_end, const htt
     else
         theName = Http::HeaderLookupTable.lookup(id).name;
 
-    /* trim field value */
-    while (value_start < field_end && xisspace(*value_start))
+    /* trim field value: RFC 9110 section 5.5 allows only OWS (SP and HTAB) around it;
+     * other isspace() characters (VT, FF) are part of an (invalid) value */
+    while (value_start < field_end && (*value_start == ' ' || *value_start == '\t'))
         ++value_start;
 
-    while (value_start < field_end && xisspace(field_end[-1]))
+    while (value_start < field_end && (field_end[-1] == ' ' || field_end[-1] == '\t'))
         --field_end;
 
     if (field_end - value_start > 65534) {
